@@ -128,7 +128,7 @@ PROPS = {
     },
     'C09': {
         'steps': [{'script': 'corr_calib.py', 'timeout': 1500, 'timeout_thorough': 6000}],
-        'required_theorems': ['C09_each_sample_applied_once', 'C09_first_sample_initialises',
+        'required_theorems': ['C09_statistics_only_for_operands_of_selected_operators', 'C09_each_sample_applied_once', 'C09_first_sample_initialises',
                               'C09_io_operator_copies_are_irrelevant', 'C09_resume_equals_one_pass',
                               'C09_calibrate_is_run_samples'],
         'rule': CALIB_RULE,
